@@ -391,7 +391,9 @@ def build(abstract, tables):
             flg.append(c["miss"])
             cls.append([c["a"], c["b"]])
         if asnp and t in ("float", "complex", "boolean"):
-            col = np.array(col)
+            # typed ndarray column, or (every other such column) an OBJECT-dtype array holding the same Python values
+            # (what a data-frame column hands over)
+            col = np.array(col, dtype=object) if (abstract.get("salt", 0) + ci) % 2 else np.array(col)
         b.data.append(col)
         b.expected.append(exp)
         b.flags.append(flg)
@@ -487,6 +489,9 @@ def evaluate(bench, abstract, tables, tamper=None):
         if parsed != schema:
             return [fail("terse-schema", got=repr(parsed)[:300], exp=repr(schema)[:300])], b
         schema = parsed
+    import copy
+
+    before = copy.deepcopy(b.data)
     try:
         cm = COMMENTS[abstract.get("comments", "none")]
         if cm is None:
@@ -495,6 +500,12 @@ def evaluate(bench, abstract, tables, tamper=None):
             bench.pio.save_scsv(bench.path, schema, b.data, comments=cm)
     except Exception as e:  # noqa: BLE001
         return [fail("raised", stage="save", exc=exc_label(e), msg=str(getattr(e, "message", e))[:200])], b
+    # the writer must leave the caller's columns as they were (the same columns may be saved again, e.g. under another
+    # schema): compare with the copy taken before the call
+    for i, f in enumerate(abstract["fields"]):
+        for j in range(b.nrows):
+            if not same_value(f["type"], before[i][j], b.data[i][j]):
+                return [fail("input-modified", field=i, cell=b.classes[i][j], got=repr(b.data[i][j]), exp=repr(before[i][j]))], b
     nf = len(b.names)
     raw = raw_cells(bench.path, schema["delimiter"], nf, b.nrows)
     try:
@@ -932,7 +943,7 @@ class Minimiser:
 
     def signature(self, cur, f, form_matters, type_matters):
         clause = {"value": "cell-value-not-restored", "raised": "valid-roundtrip-raised", "names": "field-names-not-restored",
-                  "shape": "column-shape-not-restored", "terse-schema": "terse-schema-parse",
+                  "shape": "column-shape-not-restored", "terse-schema": "terse-schema-parse", "input-modified": "save-modified-the-callers-data",
                   "missing-flag": "fill-cell-not-written-as-marker" if f["stage"] == "must" else "other-cell-written-as-marker"}[f["kind"]]
         sig = {"clause": clause}
         if f["kind"] == "raised":
